@@ -771,7 +771,7 @@ class Parser:
         # we dont use `last_newline_pos` here,
         # because the recursive parsing may result a deeper `last_newline_pos`.
         last_newline = p.lexer.lexdata.rfind("\n", 0, lexpos)
-        return lexpos - max(last_newline, 0)
+        return lexpos - last_newline
 
 
 def parse(filepath: str, traditional_mode: bool = False) -> Proto:
